@@ -1,7 +1,6 @@
 package bigint
 
 import (
-	"math"
 	"math/big"
 	"math/bits"
 	"slices"
@@ -107,28 +106,10 @@ func ToPreallocatedBytes(n *big.Int, data []byte) []byte {
 	}
 
 	if sign < 0 {
-		bits := n.Bits()
-		carry := true
-		nonZero := false
-		for i := range bits {
-			if carry {
-				bits[i]--
-				carry = (bits[i] == math.MaxUint)
-			}
-			nonZero = nonZero || (bits[i] != 0)
-		}
-		defer func() {
-			var carry = true
-			for i := range bits {
-				if carry {
-					bits[i]++
-					carry = (bits[i] == 0)
-				} else {
-					break
-				}
-			}
-		}()
-		if !nonZero { // n == -1
+		// -n-1 is what gets complemented below. It's computed on a copy, the
+		// argument can be shared with other goroutines.
+		n = new(big.Int).Add(n, bigOne)
+		if n.Sign() == 0 { // n == -1
 			return append(data[:0], 0xFF)
 		}
 	}
